@@ -37,6 +37,9 @@ fn main() {
                 "suba" => { let mut x = a.clone(); x -= &b2; x }
                 "iadd" => (BigInt::from_biguint(Sign::Plus, a.clone()) + BigInt::from_biguint(Sign::Plus, b2.clone())).magnitude().clone(),
                 "isub" => (BigInt::from_biguint(Sign::Minus, a.clone()) - BigInt::from_biguint(Sign::Plus, b2.clone())).magnitude().clone(),
+                "mul" => &a * &b2,
+                "mulv" => a.clone() * b2.clone(),
+                "mula" => { let mut x = a.clone(); x *= &b2; x }
                 "div" => &a / &b2,
                 "rem" => &a % &b2,
                 _ => panic!("op"),
@@ -78,6 +81,8 @@ def expected(op, a, b):
         return a + b
     if op in ("sub", "subv", "suba"):
         return None if a < b else a - b
+    if op in ("mul", "mulv", "mula"):
+        return a * b
     if op == "div":
         return None if b == 0 else a // b
     if op == "rem":
@@ -112,6 +117,22 @@ def addsub_vectors(seed, extra=()):
                         b &= (1 << (64 * m)) - 1
                 for op in ("add", "adda", "addv", "sub", "suba", "subv"):
                     vs.append((op, a, b))
+    return vs
+
+
+def mul_vectors(seed, extra=()):
+    rnd = random.Random(seed)
+    M = (1 << 64) - 1
+    vs = list(extra)
+    for n in (1, 2, 3, 4, 8, 31, 33, 40, 70):
+        for m in (1, 2, 3, n, 2 * n + 1):
+            for _ in range(3 if n < 30 else 1):
+                a = rnd.getrandbits(64 * n) | (1 << (64 * n - 1))
+                b = rnd.getrandbits(64 * m) | 1
+                for op in ("mul", "mulv", "mula"):
+                    vs.append((op, a, b))
+            vs.append(("mul", (1 << (64 * n)) - 1, (1 << (64 * m)) - 1))
+            vs.append(("mul", M << (64 * (n - 1)), M))
     return vs
 
 
